@@ -206,9 +206,21 @@ func (s *SourceControl) runLaterIfActive(f func()) error {
 		return fmt.Errorf("no source is active")
 	}
 	vpoint("RLIA.checked")
-	s.queuedRequests <- f
-	vpoint("RLIA.sent")
-	return <-s.queuedResults
+	// A source can end by itself (error block, timeout); isSourceActive is refreshed only later.
+	// Nothing receives requests then, so keep checking the source while waiting to hand f over.
+	ticker := time.NewTicker(50 * time.Millisecond)
+	defer ticker.Stop()
+	for {
+		select {
+		case s.queuedRequests <- f:
+			vpoint("RLIA.sent")
+			return <-s.queuedResults
+		case <-ticker.C:
+			if s.ActiveSource.GetState() == Inactive {
+				return fmt.Errorf("no source is active")
+			}
+		}
+	}
 }
 
 // MixFractionObject is the RPC-usable structure for ConfigureMixFraction
